@@ -289,9 +289,13 @@ def main():
                         f["row"] >= min(case["info"].get("in_season_days_multi", 0),
                                         case["info"].get("in_season_days_fresh", 0)) - 1
                     when = "day1" if f["row"] == 0 else ("summary-only" if f["row"] >= 10 ** 6 else "later")
-                    sig = "%s|irr=%d|iwc=%s|first=%s@%s%s" % (
-                        calclass(cfg["crop"]), cfg["irr"]["method"], wm.iwc_label(cfg["iwc"]), f["lead"], when,
-                        "|scheduled-harvest-date-differs" if hd else "")
+                    if hd:
+                        sig = "%s|scheduled-harvest-date-differs(latest harvest date derived from season-0 weather)" % \
+                              calclass(cfg["crop"])
+                    else:
+                        sig = "%s|irr=%d%s|first=%s@%s" % (
+                            calclass(cfg["crop"]), cfg["irr"]["method"],
+                            "|iwc=" + wm.iwc_label(cfg["iwc"]) if cfg["irr"]["method"] == 4 else "", f["lead"], when)
                     e = sigs.get(sig)
                     rec = {"cfg": cfg, "case": case}
                     if e is None:
